@@ -132,11 +132,12 @@ CHECKS = {
                 budget=dict(quick=120, thorough=2400),
                 rule="explicit-state BFS over operation histories of the real pool allocator (8 configurations: simple/adaptive policy, tracking base, own base, user buffers of several sizes/alignments); every transition executed on the implementation and checked: 8-byte alignment, containment in one chunk, pairwise disjointness, contents intact, Realloc prefix and in-place growth, zero size -> null, Size()/Capacity() accounting, copies share one pool, chunks returned exactly once and only when the last copy dies, user buffer never freed or overrun."),
     "C12": dict(level="model_checking", engine="domexplore",
-                jobs=lambda t: J("domexplore", "prod-hsw", []) + J("domexplore", "asan-hsw", []),
+                jobs=lambda t: J("domexplore", "prod-hsw", []) + J("domexplore", "asan-hsw", []) + J("domsweep", "asan-hsw", [], label="asan-hsw/size-sweep") + J("domsweep", "prod-hsw", [], label="prod-hsw/size-sweep"),
                 budget=dict(quick=150, thorough=3000),
                 rule="explicit-state BFS over mutation-API histories of a real document (pool allocator and ledger-tracking freeing allocator) against a plain-container model (vector of values / vector of pairs, RemoveMember moving the last member into the hole); after every transition Dump() equals the model serialisation, every accessor agrees, toggling the lookup map on objects with distinct keys changes nothing, the serialised text round-trips; every transition is executed on the implementation by replaying the history on fresh objects."),
     "C13": dict(level="model_checking", engine="docexplore",
-                jobs=lambda t: J("docexplore", "asan-hsw", [], fills=[0x06] if t == "quick" else [0xbe, 0x06, 0x0c]) + J("domexplore", "asan-hsw", ["--only", "M_track_nestedmap"], label="asan-hsw/domexplore-track"),
+                jobs=lambda t: J("docexplore", "asan-hsw", [], fills=[0x06] if t == "quick" else [0xbe, 0x06, 0x0c]) + J("domexplore", "asan-hsw", ["--only", "M_track_nestedmap"], label="asan-hsw/domexplore-track") +
+                J("domsweep", "asan-hsw", [], label="asan-hsw/size-sweep"),
                 budget=dict(quick=150, thorough=3000),
                 rule="explicit-state BFS over histories of two documents using a ledger-tracking allocator that really frees (Parse valid/invalid/deep, ParseOnDemand, ParseSchema, document move/swap, cross-document CopyFrom, node mutations, destroy/recreate at any point) under ASan: every block obtained from the allocator is returned exactly once (no double or foreign free, no use after free), nothing is left allocated when the last owner dies (ledger empty, heap at baseline), and each document's Dump() equals its own model after every step so that a deep copy is independent of its source. The mutation-API explorer with the same tracking allocator (domexplore, one start state) is run as a second job."),
     "C18": dict(level="exploration", engine="eqenum",
@@ -193,7 +194,9 @@ def build_dir():
         others = sorted((x for x in os.listdir(BUILD) if x != _HASH and x != "scratch" and os.path.isdir(os.path.join(BUILD, x))),
                         key=lambda x: os.path.getmtime(os.path.join(BUILD, x)))
         for x in others[:-2]:
-            shutil.rmtree(os.path.join(BUILD, x), ignore_errors=True)
+            # another check may be running out of a directory that is not the newest: only remove what has been idle for a while
+            if time.time() - os.path.getmtime(os.path.join(BUILD, x)) > 5400:
+                shutil.rmtree(os.path.join(BUILD, x), ignore_errors=True)
     except OSError:
         pass
     return d
@@ -502,7 +505,7 @@ def main():
     if a[0] == "replay":
         return do_replay(a[1])
     if a[0] == "build":
-        build_many([(a[1], a[2])])
+        print(build_many([(a[1], a[2])])[(a[1], a[2])])
         return 0
     prop = a[0]
     tier = os.environ.get("VERIF_TIER", "quick")
